@@ -29,7 +29,7 @@
                   the model gives), and the recursive pre-order walk returns exactly when its fuel exceeds the height:
                   recursion depth = nesting depth (the logic half of the stack-overflow question).
    C12_path_suffix [U]: path() of an element ends with its item name (the strip_suffix(..).unwrap() of set_item_name).
-   Findings (fixed in /repo, the sites are gone from Ops.v): c28d8d2, dbf2768, 8b342ea — see findings/C12-panic-*.
+   Findings (fixed in /repo, the sites are gone from Ops.v): 1b7bb3a, 72b7a48, a58912b — see findings/C12-panic-*.
 
    ---- the FULL theorems (the _partial ones above are kept) ----
    Float oracle (Tree/NoPanicFloat.v): run_opF fmt = run_op with Element::set_character_data's `value.to_string()` of a Float
@@ -86,7 +86,7 @@
                   History: the walk read the sub-element mask in the STORED type with the index list of the RECALCULATED type and
                   panicked (index out of bounds) after a move / copy that keeps a stored type the new parent does not list — found
                   here (`avh panics mixup`, 80 scenarios; findings/C12-panic-check-compat-mixup.json), predicted by the model on the
-                  regenerated tables, fixed in /repo 7fd71e4 (the mask is read in the recalculated type), the model followed.
+                  regenerated tables, fixed in /repo 96557f4 (the mask is read in the recalculated type), the model followed.
    C12_check_compat_mixup_fixed_real [F]: the state that used to panic (a wf_ops history on the real tables) is now checked.
    C12_serialize_file_total [U]: ArxmlFile::serialize returns for every file record in an H2 world and keeps H2.
    C12_coverage_step2: PENDING as steps are OpDuplicate and OpLoad.  Missing, precisely:
